@@ -1,6 +1,7 @@
 (* C16: property theorems (see bin/propcfg/C16.py for the status).
    One long-lived instance = one scratch state (Node.temp, Node.marker, Node.partial_derivative,
-   Ddnnf.md) threaded through every request, plus the enumeration cursor (ENUMERATION_CACHE).
+   Ddnnf.md) threaded through every request, plus the enumeration cursor (Ddnnf.enumeration_cursor
+   since the repair F21; the process-global ENUMERATION_CACHE before).
      req      = RCount A | RSat A | RCore A | RTable | RSample A k chs | REnum A k | RMarked A
      run_req d (s, cur) q = ((s', cur'), answer)   built from the model functions execute_query, sat,
                 core_dead_with_assumptions, card_of_each_feature, uniform_random_sampling (recorded
@@ -68,21 +69,52 @@ Theorem C16_marked_reads_marks_only : forall C n A s s', marks s = marks s' -> m
 Proof. exact get_marked_indep. Qed.
 Print Assumptions C16_marked_reads_marks_only.
 
-(* The cursor part of the property, REFUTED on the current code (K2): the cursor map is keyed by
-   the assumption set only and shared by all models of the process.  Two different well-formed
-   circuits over the same features, one page of C1, then the first page of C2 with the same cursor
-   map: C2's page starts where C1's cursor stopped. *)
-Theorem C16_cursor_shared_refuted : exists C1 C2 n A k,
+(* The cursor part of the property: "Enumeration paging state belongs to one loaded model and one
+   assumption set; it is unaffected by requests made to other models loaded in the same process."
+   A process with two loaded models d1, d2 (any two: different circuits, or two loads of the same
+   file).  Since the repair F21 the cursor is a field of the loaded model, so the process state is
+   two instance states (scratch, cursor) side by side and [proc_run] sends each request of an
+   interleaved history to the model it names.  [only M1 l] = the entries of l that concern model 1.
+   For EVERY history, every starting state: the final state of model 1 (scratch and cursor) and
+   all its answers, enumeration pages included, are those of running its own requests alone
+   ([run_reqs_ans]); likewise model 2.  (True by construction of the model - which is the point:
+   the model always described one cursor per model; the repaired code is the code it describes.
+   The tie to /repo is the correspondence: kind C16X, and C17 modes clones / independent.) *)
+Theorem C16_cursor_per_model : forall d1 d2 (h : list (which * req)) st1 st2,
+  let '(p', ans) := proc_run d1 d2 (st1, st2) h in
+  (fst p', only M1 ans) = run_reqs_ans d1 st1 (only M1 h) /\
+  (snd p', only M2 ans) = run_reqs_ans d2 st2 (only M2 h).
+Proof. exact cursor_per_model. Qed.
+Print Assumptions C16_cursor_per_model.
+
+(* The code BEFORE the repair (finding K2): [proc_run_v0] threads ONE cursor map through the
+   requests of both models (the process-global static, keyed by the assumption set only).  Two
+   different well-formed circuits over the same features (x1 <-> x2, and x1, x2 free), one page of
+   model 1, then the first page of model 2: with the shared cursor model 2 does not answer what it
+   answers alone; with the cursor per model it does, and that answer is the first configuration
+   of its enumeration order. *)
+Theorem C16_cursor_shared_refuted_v0 : exists C1 C2 n h,
   check_wf C1 n = true /\ check_wf C2 n = true /\ C1 <> C2 /\
-  let cur1 := snd (fst (enumerate (build C1 n) A k [] (fresh_scratch C1))) in
-  let own_page := snd (enumerate (build C2 n) A k [] (fresh_scratch C2)) in
-  let shared_page := snd (enumerate (build C2 n) A k cur1 (fresh_scratch C2)) in
-  cur_get cur1 (enum_key A) = k /\
-  own_page = Some (map sort_abs (slice 0 k (EOr C2 A))) /\
-  shared_page = Some (map sort_abs (slice k (k + k) (EOr C2 A))) /\
-  shared_page <> own_page.
-Proof. exact cursor_shared_refuted. Qed.
-Print Assumptions C16_cursor_shared_refuted.
+  let d1 := build C1 n in let d2 := build C2 n in
+  let alone := snd (run_reqs_ans d2 (fresh_scratch C2, []) (only M2 h)) in
+  only M2 (snd (proc_run_v0 d1 d2 (fresh_scratch C1, fresh_scratch C2, []) h)) <> alone /\
+  only M2 (snd (proc_run d1 d2 ((fresh_scratch C1, []), (fresh_scratch C2, [])) h)) = alone /\
+  alone = [AEnum (Some (map sort_abs (slice 0 1 (EOr C2 []))))].
+Proof. exact cursor_shared_refuted_v0. Qed.
+Print Assumptions C16_cursor_shared_refuted_v0.
+
+(* non-vacuity of C16_cursor_per_model with enumeration on both sides: x1 <-> x2 (2
+   configurations) and x1, x2 free (4) paged alternately, page size 1, six requests: each model
+   pages through its own cycle (model 1 wraps after two pages); with the shared cursor of the old
+   code model 1's second page is empty and model 2 skips - evaluated *)
+Example ex_c16_two_models :
+  let d1 := build c16_iff 2 in let d2 := build c16_free 2 in
+  let h := [(M1, REnum [] 1); (M2, REnum [] 1); (M2, REnum [] 1); (M1, REnum [] 1); (M2, REnum [] 1); (M1, REnum [] 1)] in
+  let ans := snd (proc_run d1 d2 ((fresh_scratch c16_iff, []), (fresh_scratch c16_free, [])) h) in
+  only M1 ans = [AEnum (Some [[1; 2]]); AEnum (Some [[-1; -2]]); AEnum (Some [[1; 2]])] /\
+  only M2 ans = [AEnum (Some [[1; 2]]); AEnum (Some [[-1; 2]]); AEnum (Some [[1; -2]])] /\
+  only M1 (snd (proc_run_v0 d1 d2 (fresh_scratch c16_iff, fresh_scratch c16_free, []) h)) <> only M1 ans.
+Proof. cbv zeta. split; [vm_compute; reflexivity|]. split; [vm_compute; reflexivity|]. vm_compute. discriminate. Qed.
 
 (* ---------------- non-vacuity ---------------- *)
 (* 1 & (2 <-> 3) with a true node; a dirty but Clean starting state; a history with every request
